@@ -714,3 +714,9 @@ Proof.
   intros W. rewrite (client_open_is_cs tls _ W). rewrite crun_app. cbn [crun cstep fst].
   now rewrite cs_cclose.
 Qed.
+
+(* close leaves nothing queued in .axes *)
+Lemma axes_server_close tls s : axes (server_close tls s) = [].
+Proof. unfold server_close. destruct tls; reflexivity. Qed.
+Theorem server_axes_empty tls evs : axes (srun tls init (evs ++ [Close])) = [].
+Proof. rewrite srun_app. cbn [srun sstep fst]. apply axes_server_close. Qed.
